@@ -14,6 +14,7 @@ RULE = ('enumeration: for every transfer shape (BAM / RTS-CTS x J1939-21 / -22 x
         'for every k<=F, drop_rx(k, listener) for BAM with two listeners; each followed by a fresh transfer on the same address pair. '
         'Sampled runs add random sizes, addresses, latency policies and two faults per run. non-trivial = the fault actually fired; '
         'distinct = distinct scenario JSON')
+FAULT_COUNTERS = {'drop (frame lost for all receivers)': 'fault_drop', 'drop_rx (lost at one receiver)': 'fault_drop_rx', 'silence (node unplugged from frame k on)': 'fault_silence'}
 REQUIRED_PROBES = ['fault_fired_runs', 'gave_up_sessions', 'abort3_frames', 'followup_ok']
 ASSUMPTIONS = ['silence models an unplugged node: it keeps running but its frames neither go out nor come in; it is re-plugged before the follow-up transfer',
                'give-up bound: last transfer frame sent by / delivered to the stack + T + Lmax + 10 ms polling, T being the standard timeout of the state that event leads to: T1 0.75 s after a received DT/BAM, T2 1.25 s after an own CTS, T3 1.25 s after an own RTS/last DT, T4 1.05 s after a received hold, T5 3 s after an own FD end-of-message status (never tighter than the standard)']
@@ -152,6 +153,8 @@ def execute(scn, keep_log=False, hook=None):
     first_deliveries = list(w.deliveries)
     fired = sum(bus.fired.values())
     stats['fault_fired_runs'] = int(fired > 0)
+    for fk in ('drop', 'drop_rx', 'silence'):
+        stats['fault_' + fk] = bus.fired.get(fk, 0)
     stats['first_frames'] = first_frames
 
     # ---- per stack: frames it sent (incl. those suppressed while unplugged) and frames delivered to it
